@@ -17,7 +17,7 @@ def decide_over(config, sc):
     try:
         pols = [specs.mk_policy(p) for p in sc['policies']]
         try:
-            storelib.load_policies(h, pols)
+            storelib.load_policies(h, pols, via_update=bool(sc.get('via_update')))
         except Exception as e:  # noqa
             return 'SKIP store rejected a policy: %s' % type(e).__name__, None
         ck = None if sc['checker'] == 'CNone' else specs.mk_checker(sc['checker'])
@@ -135,6 +135,9 @@ class BackendDecisionStream(Stream):
                             [[t[0], gen.rx_of_literal(t[0])] for t in sc['rxtable'] if t[1] is None and
                              not any(c in t[0] for c in '()[]{}?*+|^$\\.')]
             sc['config'] = config
+            if rng.random() < 0.2 and len({str(p['uid']) for p in sc['policies']}) == len(sc['policies']):
+                # the stored policies got there by update(): each uid held a policy of the other kind before
+                sc['via_update'] = True
             yield sc
 
     def emit(self, c):
